@@ -47,6 +47,13 @@ PushDown(t, s, r, m) ==
   THEN Merge(PushDown(t, s, r - 1, t[<<s, r>>]), [k \in {<<s, r>>} |-> m])
   ELSE Merge(t, [k \in {<<s, r>>} |-> m])
 
+(* unregister: drop m, then close the gap it leaves in its signature's chain  *)
+(* (ranks of a signature are always 0, -1, -2 .. without holes)               *)
+DropClose(t, m) ==
+  LET kept == {k \in DOMAIN t : t[k] # m}
+      NewK(k) == <<k[1], 0 - Cardinality({k2 \in kept : k2[1] = k[1] /\ k2[2] > k[2]})>>
+  IN [kk \in {NewK(k) : k \in kept} |-> t[CHOOSE k \in kept : NewK(k) = kk]]
+
 EffSet(n) == LET e == EffOf(mix, own, n) IN {<<k[1], k[2], e[k]>> : k \in DOMAIN e}
 
 ProbeClause(st) ==
@@ -78,7 +85,7 @@ Consume ==
                  /\ bad' = Add(IF \E k \in used : st.n \in AncOf(mix, k) THEN "" ELSE "C16:refusal_justified", st)
             ELSE /\ own' = CASE st.op = "register" -> [own EXCEPT ![st.n] = PushDown(@, st.sid, 0, st.m)]
                              [] st.op = "unregister" ->
-                                  [own EXCEPT ![st.n] = [k \in {k \in DOMAIN @ : @[k] # st.m} |-> @[k]]]
+                                  [own EXCEPT ![st.n] = DropClose(@, st.m)]
                              [] OTHER -> own
                  /\ mix' = IF st.op = "add_mixins" THEN [mix EXCEPT ![st.n] = @ \o st.mixins] ELSE mix
                  /\ lastmod' = st.n
